@@ -27,9 +27,9 @@ from pylife.stress.rainflow.recorders import FKMNonlinearRecorder
 NAME = "hcm"
 
 PROPS = {
-    "C04": {"quick": {"runs": 9000, "budget_s": 80, "batch": 40, "det_pool": 16, "det_fresh": 6, "min_time_s": 60},
+    "C04": {"quick": {"runs": 9000, "budget_s": 55, "batch": 25, "det_pool": 16, "det_fresh": 6, "min_time_s": 60},
             "thorough": {"runs": 300000, "budget_s": 1100, "batch": 100, "det_pool": 200, "det_fresh": 30, "min_time_s": 120}},
-    "C05": {"quick": {"runs": 3200, "budget_s": 80, "batch": 20, "det_pool": 16, "det_fresh": 6, "min_time_s": 90},
+    "C05": {"quick": {"runs": 3200, "budget_s": 55, "batch": 10, "det_pool": 16, "det_fresh": 6, "min_time_s": 90},
             "thorough": {"runs": 100000, "budget_s": 1100, "batch": 50, "det_pool": 120, "det_fresh": 20, "min_time_s": 180}},
 }
 
